@@ -1,5 +1,5 @@
 """C03 Decoding does not depend on how the input is delivered - structural clauses."""
-from .. import frontend as F, ast as A, cfg as C, util as U, guards as G
+from .. import frontend as F, ast as A, cfg as C, util as U, guards as G, inline as I
 
 EXPLANATION = ('Decides structural necessary conditions of chunking-independence: (R03.1) every suspend point of the '
                'incremental JSON number/string sub-automata stores the state whose dispatch entry jumps back to the label that '
@@ -118,8 +118,10 @@ EVENTS = ('null_value', 'bool_value', 'int64_value', 'uint64_value', 'double_val
           'begin_array', 'end_array', 'begin_object', 'end_object', 'key', 'typed_array', 'begin_multi_dim', 'end_multi_dim')
 
 def _is_visitor_event(c):
-    return A.is_call(c) and A.callee_name(c) in EVENTS and 'visitor' in A.strip_targs(c.get('cq', '')) and \
-           A.ref_name(c.get('obj')) in ('visitor', 'visitor_', 'local_visitor')
+    if not (A.is_call(c) and A.callee_name(c) in EVENTS and 'visitor' in A.strip_targs(c.get('cq', ''))): return False
+    # on a visitor object held or received by the parser (whatever it is called), not on the parser itself
+    o = A.strip(c.get('obj'), casts=True)
+    return o is not None and o.get('k') in ('DeclRefExpr', 'MemberExpr')
 
 def _sets_more_stop(node):
     """Statement assigns more_ from !cursor_mode_ (or false)."""
@@ -141,14 +143,36 @@ def r03_5(chk, tier):
                       'the function exit that does not pass an error return, by `more_ = !cursor_mode_` (or more_ = false), so that a pull '
                       'cursor sees every event the push visitor sees', floor=90)
     n = 0
+    def emits(callee, call=None):
+        # a helper that emits an event and leaves the stop to its caller (one that assigns more_ itself is judged on its own)
+        if not any(_is_visitor_event(c) for c in A.walk_no_lambda(callee['body'])): return False
+        return not any(U.assigned_member(x) and U.assigned_member(x)[0] == 'more_' for x in A.walk_no_lambda(callee['body']) if x.get('k') in ('BinaryOperator', 'CXXOperatorCallExpr'))
     for unit, cls in PARSERS:
         facts = F.load([unit], tier)
         if unit not in chk.units: chk.units.append(unit)
-        for fn in U.one_per_inst(U.functions(facts, cls=cls)):
-            if fn.get('body') is None: continue
+        fns = [fn for fn in U.one_per_inst(U.functions(facts, cls=cls)) if fn.get('body') is not None]
+        # an event emitted through a small helper of the parser (`visit_integer(visitor, val, ec)`) is the caller's event: helpers that
+        # emit are inlined where they are called in statement position (E11); a helper is then judged on its own only if some call of
+        # it was not inlined
+        expanded = {}; inlined_q = set(); direct_q = set()
+        for fn in fns:
+            x = I.expand(facts, fn, allow=emits, depth=2)
+            expanded[fn['q']] = x
+            skip = set()
+            for y in A.walk_no_lambda(x['body']):
+                if y.get('k') == 'InlinedCall':
+                    inlined_q.add(y.get('q'))
+                    if isinstance(y.get('call'), dict): skip.add(id(y['call']))
+            for y in A.walk_no_lambda(x['body']):
+                if A.is_call(y) and id(y) not in skip:
+                    cal = facts.callee(fn, y)
+                    if cal is not None and cal.get('body') is not None and not cal.get('dep') and emits(cal): direct_q.add(cal['q'])
+        for fn0 in fns:
+            fn = expanded[fn0['q']]
             evs = [c for c in A.walk_no_lambda(fn['body']) if _is_visitor_event(c)]
             if not evs: continue
-            chk.analysed(fn)
+            wrapper_only = fn0['q'] in inlined_q and fn0['q'] not in direct_q
+            chk.analysed(fn0)
             g = C.CFG(fn['body'])
             stops = [nd for nd in g.rpo if _sets_more_stop(nd)]
             for i, c in enumerate(evs):
@@ -165,7 +189,8 @@ def r03_5(chk, tier):
                     if r.kind == 'return' or (r.kind == 'exit'):
                         if r.kind == 'exit':
                             # falling off the end: predecessors that are not returns
-                            preds = [p for p in r.pred if p.id in reach and p.kind != 'return']
+                            preds = [p for p in r.pred if p.id in reach and p.kind != 'return' and
+                                     not (fn.get('_expanded') and any('ec' in A.text(a) and lab is True for a, lab, e in g.guards(p)))]
                             if preds: bad = preds[0]; break
                             continue
                         # error return: some guard on the path tests ec
@@ -174,6 +199,9 @@ def r03_5(chk, tier):
                         bad = r; break
                 facts_ = {'function': fn['q'], 'event': A.text(c)[:80], 'line': c.get('l')}
                 if bad is None: chk.ok('R03.5', site, facts_ if n % 25 == 1 else None)
+                elif wrapper_only:
+                    # every call of this helper was inlined into its caller, where the obligation is checked
+                    chk.ok('R03.5', site + ' (helper; checked at its callers)', None)
                 else:
                     chk.fail('R03.5', site, fn['file'], c.get('l'), '%s emitted in %s can reach the end of the function (line %s) without '
                              '`more_ = !cursor_mode_`: a pull cursor would not stop on this event' % (A.callee_name(c), fn['n'], bad.line), facts_, fn['q'])
